@@ -46,6 +46,7 @@ def check(ck):
     r01_9(ck)
     r01_10(ck)
     r01_12(ck)
+    r01_13(ck)
 
 
 # ------------------------------------------------------------------ R01.1
@@ -646,6 +647,25 @@ def r01_6(ck, rf):
                 ck.require(ok, 'R01.6', fi, n,
                            'initial front entries start at the initial '
                            'clock with no update', None, n)
+    # the clock is set before the initial front is built from it
+    init = ck.fn('Engine.__init__', 'core.engine')
+    ci = cfg_of(init.node)
+    gts = [x for x in A.walk_no_nested(init.node)
+           if isinstance(x, (ast.Assign, ast.AnnAssign)) and any(
+               A.is_self_attr(t, 'global_time')
+               for t in A.assigned_targets(x))]
+    fronts = [x for x in A.walk_no_nested(init.node)
+              if isinstance(x, (ast.Assign, ast.AnnAssign)) and any(
+                  A.is_self_attr(t, 'front')
+                  for t in A.assigned_targets(x))]
+    ok = bool(gts) and bool(fronts) and all(
+        ci.dominates(ci.node(gts[0]), ci.node(x)) for x in fronts)
+    ck.require(ok, 'R01.6', init, fronts[0] if fronts else 'self.front',
+               'global_time is initialised before the front entries are '
+               'created from it',
+               'the initial front is built before self.global_time is set '
+               'from initial_global_time: processes start at a stale clock '
+               'value', fronts[0] if fronts else None)
     ck.floor('R01.6', n_writers, 4, 'writers of front time slots')
     ef = ck.fn('empty_front', 'core.engine')
     rets = [r for r in A.walk_no_nested(ef.node) if isinstance(r, ast.Return)]
@@ -914,3 +934,23 @@ def r01_12(ck):
     (shared with C10 R10.11)."""
     from . import c10
     c10.r10_11(ck, rule='R01.12')
+
+
+def r01_13(ck):
+    ck.rule('R01.13', 'no part of a returned update is lost on the way to '
+            'the store: colliding port updates stay separate updates, and '
+            'a leaf applies its updater whatever the value of the update '
+            '(shared with C06 R06.2 and C08 R08.5)')
+    from . import c06, c08
+    c06.r06_2(ck)
+    c08.r08_5(ck)
+    OLD, NEW = ('R06.2', 'R08.5'), 'R01.13'
+
+    for o in ck.obligations:
+        if o['rule'] in OLD:
+            o['rule'] = NEW
+    for v in ck.violations:
+        if v.rule in OLD:
+            v.rule = NEW
+    for r in OLD:
+        ck.rules.pop(r, None)
